@@ -49,7 +49,11 @@ type solverAnswer struct {
 }
 
 func runSolver(sd solverDef, file string, timeoutS int) solverAnswer {
-	ctx, cancel := context.WithTimeout(context.Background(), time.Duration(timeoutS+5)*time.Second)
+	return runSolverCtx(context.Background(), sd, file, timeoutS)
+}
+
+func runSolverCtx(parent context.Context, sd solverDef, file string, timeoutS int) solverAnswer {
+	ctx, cancel := context.WithTimeout(parent, time.Duration(timeoutS+5)*time.Second)
 	defer cancel()
 	args := sd.Args(file, timeoutS)
 	cmd := exec.CommandContext(ctx, args[0], args[1:]...)
@@ -120,7 +124,7 @@ func solveOne(e *Enc, o *Obligation, idx int, opts solveOpts) {
 	hdr := "; obligation: " + o.Name + "\n; " + strings.ReplaceAll(o.Text, "\n", " ") + "\n"
 	write := func(suffix string, relax bool) string {
 		file := base + suffix + ".smt2"
-		os.WriteFile(file, []byte(hdr+e.ctx.queryN(goalNeg, o.Extra, true, relax, o.NAsserts)), 0o644)
+		os.WriteFile(file, []byte(hdr+e.ctx.queryN(goalNeg, o.Extra, true, relax, o.NAsserts, o.SkipTags)), 0o644)
 		return file
 	}
 	record := func(a solverAnswer, stage string) {
@@ -178,37 +182,65 @@ func solveOne(e *Enc, o *Obligation, idx int, opts solveOpts) {
 		}
 		return
 	}
-	// stage I: goal-directed instantiation (short time-out), then stage B: the full query
+	// stage I (goal-directed instantiation) and stage B (the full query, E-matching only) run side
+	// by side: whichever proves the obligation first wins
 	modelA := ""
 	if a.result == "sat" {
 		modelA = a.out
 	}
+	fileI := ""
 	if !o.IsCover {
-		if q, ok := e.ctx.instantiatedQuery(goalNeg, o.Extra, o.NAsserts); ok {
-			fileI := base + ".inst.smt2"
+		if q, ok := e.ctx.instantiatedQuery(goalNeg, o.Extra, o.NAsserts, o.SkipTags); ok {
+			fileI = base + ".inst.smt2"
 			os.WriteFile(fileI, []byte(hdr+q), 0o644)
-			ti := opts.TimeoutS
-			ai := runSolver(solvers[0], fileI, ti)
-			o.Seconds += ai.seconds
-			if ai.result != "unsat" && ai.result != "sat" && opts.Retry {
-				// not decided in time (the instance set may well suffice): one longer attempt
-				ai = runSolver(solvers[0], fileI, 4*ti)
-				o.Seconds += ai.seconds
-			}
-			if ai.result == "unsat" {
-				o.File = fileI
-				record(ai, "/instantiated")
-				if opts.All {
-					crossCheck(o, fileI, opts)
-				}
-				return
-			}
 		}
 	}
 	fileB := write(".full", false)
 	o.File = fileB
-	b := runSolver(solvers[0], fileB, opts.TimeoutS)
+	type stageRes struct {
+		a     solverAnswer
+		stage string
+		file  string
+	}
+	ctx, cancel := context.WithCancel(context.Background())
+	ch := make(chan stageRes, 2)
+	n := 1
+	go func() { ch <- stageRes{runSolverCtx(ctx, solvers[0], fileB, opts.TimeoutS), "", fileB} }()
+	if fileI != "" {
+		n++
+		go func() { ch <- stageRes{runSolverCtx(ctx, solvers[0], fileI, opts.TimeoutS), "/instantiated", fileI} }()
+	}
+	var b, ai solverAnswer
+	for i := 0; i < n; i++ {
+		r := <-ch
+		if r.a.result == "unsat" {
+			cancel()
+			o.Seconds += r.a.seconds
+			o.File = r.file
+			record(r.a, r.stage)
+			if opts.All {
+				crossCheck(o, r.file, opts)
+			}
+			return
+		}
+		if r.stage == "" {
+			b = r.a
+		} else {
+			ai = r.a
+		}
+	}
+	cancel()
 	o.Seconds += b.seconds
+	if fileI != "" && ai.result != "sat" && opts.Retry {
+		// the instance set was not decided in time (it may well suffice): one longer attempt
+		ai = runSolver(solvers[0], fileI, 4*opts.TimeoutS)
+		o.Seconds += ai.seconds
+		if ai.result == "unsat" {
+			o.File = fileI
+			record(ai, "/instantiated")
+			return
+		}
+	}
 	ok := b.result == "sat" || b.result == "unsat"
 	if !ok {
 		var b2 solverAnswer
